@@ -117,9 +117,11 @@ theorem checkItem_covers {R : Rules} {cfg : Cfg} (hco : cfg.computeOnly = false)
                   · split at h
                     · split at h
                       · simp at h
-                      · simp at h
-                      · simp at h
-                      · exact (finish_hasEv h).1
+                      · split at h
+                        · simp at h
+                        · simp at h
+                        · simp at h
+                        · exact (finish_hasEv h).1
                     · rename_i level _
                       by_cases hc : levelOk level cfg.checkLevel = true
                       · rw [if_pos hc] at h
